@@ -99,7 +99,7 @@ def generate(rng, tier, index):
     tp = gen.CUSTOM_TYPE if rng.random() < 0.12 else gen.RDF_TYPE
     triples = gen.retype(gen.ensure_class(triples), tp)
     # rdflib-parsed sources (url) relabel blank nodes on every pass (C08's stated exception): no bnodes there
-    sources = ["raw", "file", "files", "rdflib"] + ([] if bnodes else ["url", "urls"]) + (["endpoint", "endpoint"] if endpoint_ok else [])
+    sources = ["raw", "file", "files", "gz", "rdflib"] + ([] if bnodes else ["url", "urls"]) + (["endpoint", "endpoint"] if endpoint_ok else [])
     n_sh = 2 if rng.random() < 0.4 else 1
     if tier == "thorough" and rng.random() < 0.15:
         n_sh = 3
@@ -174,11 +174,13 @@ def generate(rng, tier, index):
             if target["sink"] == "file" and target["format"] == SHEXC:
                 options += [{"kind": "sink_enospc", "k": rng.randint(0, 40),
                              "errno": rng.choice(["ENOSPC", "ENOSPC", "EIO", "ESTALE", "EAGAIN", "EINTR"])},
-                            {"kind": "sink_open_eacces"}]
+                            {"kind": "sink_open_eacces", "errno": rng.choice(["EACCES", "EIO", "EINTR", "ESTALE", "EBUSY"])}]
             if src in ("file", "files"):
                 options += [{"kind": "source_eio", "n": rng.randint(0, 2 * n_lines),
                              "errno": rng.choice(["EIO", "EIO", "ESTALE", "EINTR", "EAGAIN"])}] * 2
                 options += [{"kind": "source_open", "k": rng.randint(0, 5), "errno": rng.choice(["ENOENT", "EACCES"])}]
+            if src == "gz":
+                options += [{"kind": "torn_gz", "keep": rng.random()}] * 2
             if src in ("url", "urls"):
                 options += [{"kind": "url_reset", "fetch": rng.randint(0, 3), "after": rng.randint(1, 40 * max(1, n_lines))}]
             if src == "endpoint":
@@ -229,6 +231,7 @@ class _World(object):
         self.n_files = 0
         self.n_eps = 0
         self.shared_graph = None
+        self.gz_files = {}        # path -> complete bytes (for the torn-file fault and its repair)
 
     def source_kwargs(self, spec, tag):
         src = spec["source"]
@@ -238,6 +241,16 @@ class _World(object):
         if src == "file":
             self.n_files += 1
             return {"graph_file_input": sim.write_file("g_%s_%d.nt" % (tag, self.n_files), self.nt)}, None
+        if src == "gz":
+            import gzip
+            self.n_files += 1
+            p = sim.path("g_%s_%d.nt.gz" % (tag, self.n_files))
+            data = gzip.compress(self.nt.encode("utf-8"))
+            with open(p, "wb") as f:
+                f.write(data)
+            if tag.startswith("sut"):
+                self.gz_files[p] = data
+            return {"graph_file_input": p, "compression_mode": "gz"}, None
         if src == "files":
             self.n_files += 1
             k = max(1, len(self.triples) // 3)
@@ -298,12 +311,18 @@ def _read(path):
         return None
 
 
+def _prefix_lines(text):
+    return sorted(l.strip() for l in text.split("\n") if l.startswith("@prefix"))
+
+
 def _same(fmt, a, b):
     if a == b:
         return True
     if fmt == SHACL and a is not None and b is not None:
         try:
-            return shacl_digest(a) == shacl_digest(b)
+            # property shapes hang from rdflib BNodes with random ids, so the text is compared as a graph
+            # (isomorphism) plus its prefix declarations (which are text-level behaviour of their own)
+            return shacl_digest(a) == shacl_digest(b) and _prefix_lines(a) == _prefix_lines(b)
         except Exception:
             return False
     return False
@@ -434,16 +453,27 @@ def execute(scen, scratch):
                 sh = shapers[i]
                 if i in eps:
                     sim.set_endpoint(eps[i])
-                path = sim.path("out_%d.txt" % opi)
+                path = sim.path("out_shaper%d.txt" % i)     # every file call of a Shaper rewrites the same path
                 fault = op.get("fault")
+                fired_before = sum(sim.faults.values())
                 armed = _arm(sim, eps.get(i), fault)
+                if fault and fault["kind"] == "torn_gz" and w.gz_files:
+                    # a partial write of the source: the .gz ends before its end-of-stream marker
+                    for gp, data in w.gz_files.items():
+                        with open(gp, "wb") as f:
+                            f.write(data[:max(1, int(len(data) * fault["keep"]))])
+                    sim.faults["source_torn_gz"] += 1
+                    sim.log.add("source", "fault:torn_gz")
                 set_knob(scen["knob"])
                 appends_before = sim.fs.append_opens
-                fired_before = sum(sim.faults.values())
                 ckw = _call_kwargs(op, path)
                 r = call(lambda: sh.shex_graph(**ckw), sh)
                 runs += 1
                 _heal(sim, eps.get(i))
+                if fault and fault["kind"] == "torn_gz":
+                    for gp, data in w.gz_files.items():
+                        with open(gp, "wb") as f:
+                            f.write(data)
                 fault_fired = sum(sim.faults.values()) > fired_before
                 if op["sink"] == "file" and r.kind == "ok":
                     r.text = _read(path)
@@ -518,7 +548,7 @@ def _arm(sim, ep, fault):
         sim.fs.write_fault_left = int(fault["k"])
         sim.fs.write_errno = fault.get("errno", "ENOSPC")
     elif k == "sink_open_eacces":
-        sim.fs.open_fault = "w"
+        sim.fs.open_fault = fault.get("errno", "EACCES")
     elif k == "source_eio":
         sim.fs.read_fault_left = int(fault["n"])
         sim.fs.read_errno = fault.get("errno", "EIO")
